@@ -108,6 +108,7 @@ class Gen:
         self.tmo_pending = []         # absolute-ish deadlines to aim advances at
         self.t = 0
         self.settled = True
+        self.exits_left = rng.choice([0, 0, 1, 1, 2, 3])
 
     def value(self):
         self.val += 1
@@ -160,10 +161,13 @@ class Gen:
             self.ops.append(("multi", ts, tmo))
             self.ops.append(("settle",))
             self.settled = True
-        elif x < 0.72 and self.unacted:
+        elif x < 0.76 and self.unacted:
             c = r.choice(self.unacted[:3]) if r.random() < 0.8 else r.choice(self.unacted)
             self.unacted.remove(c)
-            kind = r.choice(["reply"] * 6 + ["drop", "store", "store", "move", "move", "panic", "err"])
+            kind = r.choice(["reply"] * 6 + ["drop", "store", "store", "move", "move"]
+                            + (["panic", "err"] if self.exits_left > 0 else []))
+            if kind in ("panic", "err"):
+                self.exits_left -= 1
             also = []
             if self.stored and r.random() < 0.5:
                 for s_ in r.sample(self.stored, min(len(self.stored), r.choice([1, 2]))):
@@ -177,11 +181,14 @@ class Gen:
             if kind in ("panic", "err"):
                 self.state[self.callee_of[c]] = "unsure"
             self.emit(("act", c, act, also))
-        elif x < 0.78 and self.moved:
+        elif x < 0.82 and self.moved:
             c = r.choice(self.moved)
             self.moved.remove(c)
             self.emit(("task", c, self.value() if r.random() < 0.7 else None))
-        elif x < 0.86:
+        elif x < 0.87:
+            if self.exits_left <= 0:
+                return
+            self.exits_left -= 1
             a = r.choice(callees + ([self.sink] if self.sink is not None and r.random() < 0.3 else []))
             what = r.choice(["kill", "kill", "stop", "drain"])
             self.emit((what, a), 0.6)
